@@ -46,11 +46,11 @@ class Ctx(object):
         self.regions[fid] = formula
 
     def oblige(self, name, path, goal, clause=None):
-        self.obls.append((name, list(path.pc), goal, path.tainted, clause, 'goal'))
+        self.obls.append((name, (list(path.pc), list(path.defs)), goal, path.tainted, clause, 'goal'))
 
     def cover(self, name, path, cond=None):
         """reachability witness: pc (and cond) must be satisfiable"""
-        self.obls.append((name, list(path.pc), cond if cond is not None else z3.BoolVal(True),
+        self.obls.append((name, (list(path.pc), list(path.defs)), cond if cond is not None else z3.BoolVal(True),
                           path.tainted, None, 'cover'))
 
     def fn(self, modname, qualname):
@@ -121,7 +121,11 @@ def discharge(ctx, timeout_ms, cvc5_timeout_s):
 
     def extract(m):
         return {k: _jsonable(model_value(m, x)) for k, x in ctx.inputs.items()}
-    for (name, pc, goal, tainted, clause, kind) in ctx.obls:
+    from .exec import select_constraints
+    for (name, pcd, goal, tainted, clause, kind) in ctx.obls:
+        pc_all, defs = pcd
+        # the whole pc is kept (no slicing for obligations); definitional axioms only where reached
+        pc = select_constraints(pc_all, defs, [goal] + list(ctx.lazy) + [r for r in ctx.regions.values()], slice_pc=False)
         t0 = time.time()
         rec = {'name': name, 'unit': ctx.unit, 'clause': clause, 'kind': kind}
         try:
